@@ -26,6 +26,7 @@ import (
 	"errors"
 	"fmt"
 	"log/slog"
+	"math"
 	"math/big"
 	"reflect"
 	"regexp"
@@ -105,6 +106,9 @@ type c15Cfg struct {
 	Pub    int      `json:"pub"` // 0 none, 1 before, 2 after
 	Mark1  string   `json:"mark1"`
 	Mark2  string   `json:"mark2"`
+	// Unenc > 0: a value that encoding/json rejects sits beside the built value in the same field
+	// (1 NaN, 2 +Inf, 3 a func, 4 a chan); only "unenc" sinks are run on such a configuration
+	Unenc int `json:"unenc,omitempty"`
 }
 
 type c15Desc struct {
@@ -435,6 +439,14 @@ func c15NewEnv(cfg c15Cfg, markHex string) (env *c15Env) {
 		}
 	}()
 	v := c15BuildAny(cfg.SecT, cfg.Shape, env.mark, env.ptrs)
+	if cfg.Unenc > 0 {
+		bad := []any{math.NaN(), math.Inf(1), func() {}, make(chan int)}[(cfg.Unenc-1)%4]
+		if m, ok := v.(map[string]any); ok && cfg.Attach == "details" {
+			m["zz"] = bad
+		} else {
+			v = map[string]any{"v": v, "zz": bad}
+		}
+	}
 	env.secret = v
 	secOpt, name := c15SecOption(cfg, v)
 	env.secName = name
@@ -623,7 +635,7 @@ func (env *c15Env) render(s c15Sink) (out string) {
 		}
 		c15Collect(t, addrs, 0)
 		return fmt.Sprintf(s.Spec.String(), t)
-	case "json":
+	case "json", "unenc":
 		t, ok := c15Target(side, env.cfg, s.Tgt)
 		if !ok {
 			return c15NA
@@ -802,6 +814,8 @@ func (s c15Sink) Coq() string {
 		return fmt.Sprintf("(SFmt %s %s)", c15FT[s.Tgt], s.Spec.Coq())
 	case "json":
 		return "(SJson " + c15OT[s.Tgt] + ")"
+	case "unenc":
+		return "(SUnenc " + c15OT[s.Tgt] + ")"
 	case "xml":
 		return "(SXml " + c15OT[s.Tgt] + ")"
 	case "gob":
@@ -931,8 +945,8 @@ func c15RunCfg(cfg c15Cfg, sinks []c15Sink) []Case {
 			Size:       c15ShapeDepth(cfg.Shape)*10 + cfg.Pos*3 + cfg.Pub + len(o1)/200,
 			Nontrivial: c15ShapeDepth(cfg.Shape) > 0 || cfg.Pos > 0,
 			Class:      s.class(),
-			Summary: fmt.Sprintf("secret=%s attach=%s shape=%s pos=%d trace=%v pub=%d sink=%s",
-				cfg.SecT, cfg.Attach, c15ShapeStr(cfg.Shape), cfg.Pos, cfg.Trace, cfg.Pub, s.String()),
+			Summary: fmt.Sprintf("secret=%s attach=%s shape=%s pos=%d trace=%v pub=%d unenc=%d sink=%s",
+				cfg.SecT, cfg.Attach, c15ShapeStr(cfg.Shape), cfg.Pos, cfg.Trace, cfg.Pub, cfg.Unenc, s.String()),
 			Observed: obs,
 		})
 	}
@@ -1107,6 +1121,18 @@ func genC15(r *Rng, tier string) []Case {
 		}
 		emit(c15Cfg{SecT: Pick(r, []string{"string", "int", "struct", "any"}), Attach: attach, Shape: sh,
 			Pos: r.Intn(3), Trace: r.Chance(1, 3), Pub: r.Intn(3)}, nrand)
+	}
+	// a value encoding/json rejects beside the secret, in the same field: whatever json.Marshal of the
+	// error, its fields, its node or its tree node returns (an error on the unchanged tree) is free of the secret
+	unencSinks := []c15Sink{{Kind: "unenc", Tgt: "err"}, {Kind: "unenc", Tgt: "fields"}, {Kind: "unenc", Tgt: "node"}, {Kind: "unenc", Tgt: "treenode"}}
+	for i, b := range base {
+		if c15HasUnexported(b.shape) {
+			continue
+		}
+		cfg := c15Cfg{SecT: []string{"string", "int", "struct", "any"}[i%4], Attach: b.attach, Shape: b.shape, Pos: i % 3, Trace: false, Pub: i % 3, Unenc: 1 + i%4}
+		cfg.Mark1, cfg.Mark2 = c15NewMark(r), c15NewMark(r)
+		out = append(out, c15RunCfg(cfg, unencSinks)...)
+		n++
 	}
 	extraMeta["c15_configurations"] = n
 	return out
